@@ -63,6 +63,7 @@ partial def parseSchema (j : Json) : Schema :=
     ref := getStr j "$ref"
     sid := getStr j "id"
     readOnly := getBool j "readOnly"
+    exampleV := if has j "example" then some (toJVal (getD j "example" Json.null)) else none
   }
   let sub (k : String) : Option Schema :=
     match (j.getObjVal? k).toOption with
